@@ -34,6 +34,9 @@ def random_tree(rng, size, max_depth=30, names=None, text_alph=ALPH, p_ns=0.25, 
             n.tail = ustr(rng, 8, text_alph)
         for _ in range(rng.choice([0, 1, 2, 4]) if rng.random() < p_attr else 0):
             n.add_attribute(ustr(rng, 5, text_alph), ustr(rng, 8, text_alph))
+        if rng.random() < p_attr / 2:
+            # names and values as real documents carry them (an attribute called id, values that look like numbers or constants)
+            n.add_attribute(rng.choice(["id", "scope", "system", "lang", "unit"]), rng.choice(["2", "10", "None", "True", "1.5", "ds-1", "document"]))
         for _ in range(rng.choice([1, 2]) if rng.random() < p_extras else 0):
             n.add_extras(ustr(rng, 5, text_alph), ustr(rng, 8, text_alph))
         if rng.random() < p_extras / 2:
